@@ -199,7 +199,7 @@ def render(i, s):
         {"PLAIN": "B_PLAIN", "CORO": "B_CORO", None: "B_NONE"}[bk], b_arity, b_k, text)
     if ref:
         info = info[:-1] + ", %s, \"%s\"}" % (REFS[ref][2], use)
-    return ("#if Q_HAS(%d)\nstatic void s%d(Ctx& c) { static const SiteInfo I%s; if (c.begin(I)) return; SITE_PROLOGUE(MK_%s_%s); %s "
+    return ("#if Q_HAS(%d)\nstatic void s%d(Ctx& c) { static const SiteInfo I%s; if (c.begin(I)) return; SITE_PROLOGUE(MK_%s_%s); %s SITE_AFTER_SETUP; "
             "c.drive(eA.get(), %s, %s, %s, [&] { %s }); }\nstatic const Reg r%d{%d, &s%d};\n#endif" % (i, i, info, ty, "l" if lazy else "e", exps.strip(), call_expr(arity, ty, lazy, ref), eB, callB, "eA.reset(); eB.reset();" if bk else "eA.reset();", i, i, i))
 
 
